@@ -26,8 +26,10 @@ ValidBits(ti) ==
 Cases(s) ==
   CASE s.fam = "all"   -> {[ti |-> s.ti, fam |-> "all", bits |-> b] : b \in AllBits(s.n)}
     [] s.fam = "fault" -> {[ti |-> s.ti, fam |-> "fault", bits |-> f] : f \in UNION {SingleFaults(b) : b \in ValidBits(s.ti)}}
-    [] s.fam = "evil"  -> {[ti |-> s.ti, fam |-> "evil", bits |-> Splice(b, p, e)] :
-                              b \in ValidBits(s.ti), p \in 0..Min(MaxLen, 24), e \in Evil}
+    \* ... also with the first bit of the message forced to 1: the extension bit of an extensible type, which no valid
+    \* encoding of a type without extension additions carries (the hostile field then lands in the extension header)
+    [] s.fam = "evil"  -> {[ti |-> s.ti, fam |-> "evil", bits |-> Splice(IF x = 1 /\ b # <<>> THEN [b EXCEPT ![1] = 1] ELSE b, p, e)] :
+                              b \in ValidBits(s.ti), p \in 0..Min(MaxLen, 24), e \in Evil, x \in 0..1}
 
 Init == st = "seed" /\ c \in Seeds
 Next == st = "seed" /\ st' = "case" /\ c' \in {x \in Cases(c) : Len(x.bits) >= 0}
